@@ -12,6 +12,9 @@ CTX = {}
 
 
 def gen_case(rng):
+    if rng.random() < 0.3:
+        return {'kind': 'emitleak', 'mode': 'globs', 'order': rng.choice(['mass-first', 'volume-first']),
+                'late': rng.random() < 0.6, 'ticks': rng.choice([2, 3]), 'depth': rng.choice([1, 1, 2])}
     return {'kind': 'emitleak', 'order': rng.choice(['over-first', 'plain-first']),
             'late': rng.random() < 0.5, 'ticks': rng.choice([2, 3]),
             'via': rng.choice(['_schema', '_schema', 'merge', 'merge2'])}
@@ -22,7 +25,45 @@ def corpus():
             {'kind': 'emitleak', 'order': 'plain-first', 'late': False, 'ticks': 2},
             # the flags are switched by Composite.merge(schema_override=…): in the last merge, or one merge earlier
             {'kind': 'emitleak', 'order': 'over-first', 'late': False, 'ticks': 2, 'via': 'merge'},
-            {'kind': 'emitleak', 'order': 'over-first', 'late': False, 'ticks': 2, 'via': 'merge2'}]
+            {'kind': 'emitleak', 'order': 'over-first', 'late': False, 'ticks': 2, 'via': 'merge2'},
+            # two glob declarations on one store flag different variables below the same nested key
+            {'kind': 'emitleak', 'mode': 'globs', 'order': 'mass-first', 'late': True, 'ticks': 3, 'depth': 1},
+            {'kind': 'emitleak', 'mode': 'globs', 'order': 'volume-first', 'late': False, 'ticks': 2, 'depth': 2}]
+
+
+def _run_globs(case, key, rows):
+    from vivarium.core.engine import Engine
+    from vivarium.core.process import Process
+
+    def nest(leafs):
+        d = leafs
+        for seg in ['boundary', 'shell'][:case['depth']][::-1]:
+            d = {seg: d}
+        return d
+
+    class Decl(Process):
+        defaults = {'leafs': {}, 'add': False}
+
+        def __init__(self, parameters=None):
+            super().__init__(parameters)
+            self.n = 0
+
+        def ports_schema(self):
+            return {'cells': {'*': {'v': nest({n: {'_default': d, '_emit': e}
+                                               for n, (d, e) in self.parameters['leafs'].items()})}}}
+
+        def next_update(self, timestep, states):
+            self.n += 1
+            if self.parameters['add'] and self.n == 1:
+                return {'cells': {'_add': [{'key': 'c', 'state': {}}]}}
+            return {}
+    mass = Decl({'leafs': {'mass': (1, True), 'hidden': (5, False)}, 'add': case['late']})
+    volume = Decl({'leafs': {'volume': (2, True)}})
+    procs = {'mass': mass, 'volume': volume} if case['order'] == 'mass-first' else {'volume': volume, 'mass': mass}
+    eng = Engine(processes=procs, topology={k: {'cells': ('cells',)} for k in procs},
+                 initial_state={'cells': {'a': {}, 'b': {}}},
+                 emitter={'type': 'verif_el', 'ctx_key': key}, display_info=False, progress_bar=False)
+    eng.update(case['ticks'])
 
 
 def run_impl(case):
@@ -62,11 +103,26 @@ def run_impl(case):
             r = CTX.get(self.config.get('ctx_key'))
             if r is not None and data['table'] == 'history':
                 cells = data['data'].get('cells') or {}
+
+                def leafs(v):
+                    while isinstance(v, dict) and set(v) & {'boundary', 'shell'}:
+                        v = v.get('boundary', v.get('shell'))
+                    return sorted((v or {}).keys())
                 r.append({'t': float(data['data']['time']),
-                          'cells': {k: sorted((v.get('v') or {}).keys()) for k, v in cells.items()}})
+                          'cells': {k: leafs(v.get('v')) for k, v in cells.items()}})
     if emitter_registry.access('verif_el') is None:
         emitter_registry.register('verif_el', RowEmitter)
     obs = {'rows': rows}
+    if case.get('mode') == 'globs':
+        try:
+            _run_globs(case, key, rows)
+            obs['rows'] = list(rows)
+        except Exception as e:  # noqa
+            obs['raised'] = f'{type(e).__name__}: {str(e)[:200]}'
+            obs['rows'] = []
+        finally:
+            CTX.pop(key, None)
+        return obs
     try:
         flags = {'v': {'level': {'_emit': True}, 'raw': {'_emit': False}}}
         via = case.get('via', '_schema')
@@ -109,6 +165,17 @@ def oracle(case, impl):
         return []
     if impl.get('raised'):
         return [f'engine-raised: {impl["raised"]}']
+    if case.get('mode') == 'globs':
+        for r in impl['rows']:
+            for k, got in sorted(r['cells'].items()):
+                if got != ['mass', 'volume']:
+                    return [f'row: at {r["t"]} child {k} of the glob store emits {got}; two glob declarations flagged '
+                            f'mass and volume (and not `hidden`) for every child']
+        if len(impl['rows']) < 1 + case['ticks']:
+            return [f'row: {len(impl["rows"])} rows for {case["ticks"]} batches']
+        if sorted(impl['rows'][-1]['cells']) != (['a', 'b', 'c'] if case['late'] else ['a', 'b']):
+            return [f'row: the last row lists the children {sorted(impl["rows"][-1]["cells"])}']
+        return []
     want = {'a': ['level'], 'b': ['raw'], 'c': ['raw']}
     for r in impl['rows']:
         for k, got in sorted(r['cells'].items()):
